@@ -458,6 +458,38 @@ theorem new_start_now_survivors_keep (pp : List Pid) (s : St) :
     · simpa using h2
     · exact hq.1
 
+open Viv.Sched in
+/-- `Engine._delete_path`: the front entries under a deleted path are forgotten at once (fix
+be2a24b; before it they were only dropped at the next loop head, and only if no process had been
+registered under the path again by then — finding F40) -/
+def dropDeleted (deletions : List Pid) (fronts : List (Pid × Front)) : List (Pid × Front) :=
+  fronts.filter (fun pf => !(deletions.any (fun d => prefixOf d pf.1)))
+
+open Viv.Sched in
+/-- **A path that is used again starts afresh**: if a structural update of the batch deleted (a
+prefix of) the path `p` — whatever front entry `p` had, also one with an update in flight — and a
+process is registered under `p` at the next loop head, its front is a new one at the current global
+time and it is the only one: the new process is simulated from the moment it entered, and nothing of
+the deleted process's schedule or pending update is left. -/
+theorem reused_path_starts_fresh (pp : List Pid) (s : St) (deletions : List Pid) (p : Pid)
+    (hp : p ∈ pp) (hdel : deletions.any (fun d => prefixOf d p) = true) :
+    (p, newFront s.gt) ∈ (normalise pp { s with fronts := dropDeleted deletions s.fronts }).fronts ∧
+    ∀ f, (p, f) ∈ (normalise pp { s with fronts := dropDeleted deletions s.fronts }).fronts →
+      f = newFront s.gt := by
+  have hnot : p ∉ (dropDeleted deletions s.fronts).map (·.1) := by
+    intro h
+    obtain ⟨pf, hpf, rfl⟩ := List.mem_map.mp h
+    simp only [dropDeleted, List.mem_filter] at hpf
+    simp [hdel] at hpf
+  constructor
+  · exact (new_start_now_survivors_keep pp { s with fronts := dropDeleted deletions s.fronts }).1 p hp hnot
+  · intro f hf
+    simp only [normalise, normFronts, List.mem_append, List.mem_filter, List.mem_map] at hf
+    rcases hf with ⟨h1, _⟩ | ⟨q, _, hq⟩
+    · exact absurd (List.mem_map.mpr ⟨(p, f), h1, rfl⟩) hnot
+    · injection hq with h1 h2
+      exact h2.symm
+
 /-- non-vacuity: a generate-then-delete history -/
 example :
     (runReports { procPaths := [["p"]], stepPaths := [], graph := empty }
